@@ -195,3 +195,29 @@ def split_log(events):
             else:
                 d["final"].append((rids, vals))
     return out
+
+
+# ---------------------------------------------------------------------------
+from sklearn.preprocessing import StandardScaler  # noqa: E402
+
+
+class RecScaler(StandardScaler):
+    """A scaler that remembers the row ids (last column) it was fitted on, i.e. the
+    training rows of the fold model it belongs to.  identity=True leaves the data as is."""
+
+    def __init__(self, identity=True):
+        super().__init__()
+        self.identity = identity
+
+    def fit_transform(self, X, y=None, **kw):
+        X = np.asarray(X, dtype=float)
+        self.train_rids_ = X[:, -1].astype(np.int64).copy()
+        if self.identity:
+            return X
+        return super().fit_transform(X)
+
+    def transform(self, X, copy=None):
+        X = np.asarray(X, dtype=float)
+        if self.identity:
+            return X
+        return super().transform(X)
